@@ -14,6 +14,7 @@ import (
 	"github.com/hashicorp/raft"
 	wal "github.com/hashicorp/raft-wal"
 	"github.com/hashicorp/raft-wal/segment"
+	"github.com/hashicorp/raft-wal/types"
 
 	"harness/sym"
 	"harness/vrt"
@@ -52,15 +53,20 @@ func HarnessCloseRace() {
 		return
 	}
 	d1, d2 := vrt.Bytes("d1", 1), vrt.Bytes("d2", 1)
+	// hooks on from the start: natively the rotation goroutine is then parked at its first
+	// recorded schedule point instead of running ahead of the race
+	vrt.SchedMain()
+	wal.VerifSched = func(p string) { vrt.Sched(p) }
+	segment.VerifSched = func(p string) { vrt.Sched(p) }
 	vrt.Assert("C14.append-ok", e.L.StoreLogs([]*raft.Log{{Index: 1, Term: 1, Data: d1}}) == nil)
 	vrt.Assert("C14.append-ok", e.L.StoreLogs([]*raft.Log{{Index: 2, Term: 1, Data: d2}}) == nil)
 	if vrt.Choice("rot", 2) == 1 {
 		vrt.Quiesce()
 	}
-	wal.VerifSched = func(p string) { vrt.Sched(p) }
-	which := vrt.Choice("method", 7)
-	stored3 := false
+	which := vrt.Param("method0", 0) + vrt.Choice("method", vrt.Param("methods", 8))
+	stored3, deleted1 := false, false
 	vrt.SchedMode(vrt.Param("P", 2))
+	vrt.SchedAtomics(vrt.Param("atomics", 0) == 1)
 	vrt.Spawn("closer", func() {
 		vrt.Sched("start")
 		vrt.Assert("C14.close-ok", e.L.Close() == nil)
@@ -85,21 +91,35 @@ func HarnessCloseRace() {
 		case 4:
 			err := e.L.DeleteRange(1, 1)
 			vrt.Assert("C14.race-deleterange", err == wal.ErrClosed || err == nil)
+			deleted1 = err == nil
 		case 5:
 			err := e.L.Set([]byte("k"), []byte("v"))
 			vrt.Assert("C14.race-set", err == wal.ErrClosed || err == nil)
 		case 6:
 			_, err := e.L.Get([]byte("k"))
 			vrt.Assert("C14.race-get", err == wal.ErrClosed || err == nil)
+		case 7:
+			// a second Close racing the first: one of them does the work, the other is a no-op
+			vrt.Assert("C14.race-close", e.L.Close() == nil)
 		}
 	})
 	vrt.JoinAll()
 	vrt.SchedOff()
+	vrt.SchedAtomics(false)
 	wal.VerifSched = nil
+	segment.VerifSched = nil
 	vrt.Quiesce()
 	vrt.Assert("C14.second-close-noop", e.L.Close() == nil)
 	_, err = e.L.LastIndex()
 	vrt.Assert("C14.closed-after-race", err == wal.ErrClosed)
+	if deleted1 && seg <= 64 {
+		// one entry per segment: the acknowledged DeleteRange(1,1) dropped the whole first
+		// segment; no read is in flight any more, so its file is gone - Close having come in
+		// between must delay the deletion at most, not cancel it
+		vrt.Assert("C13-C14.file-of-deleted-segment-is-gone-after-close", !e.FS.Exists(segment.FileName(types.SegmentInfo{BaseIndex: 1, ID: 0})))
+		vrt.Assert("C13-C14.no-handle-left-after-close", e.FS.Handles == 0)
+		vrt.Reach("deleted-then-closed")
+	}
 	err = e.reopen(seg)
 	vrt.Assert("C14.reopen-after-race-ok", err == nil)
 	if err != nil {
